@@ -30,9 +30,9 @@
    by the oracles shared with C03/C06/C12 -- [check_flat_pair] also checks that the harness's flat
    configuration IS the Coq flattening (code 73) and, inside the scope of (3), that [inline] is
    that flattening (code 74).  Property theorems only. *)
-From TV Require Import Base Model.Wiring Model.Ticker Model.Component Model.Sim Model.SimTime Model.Inline Model.NSim
+From TV Require Import Base Model.Wiring Model.Ticker Model.Component Model.Sim Model.SimTime Model.Inline Model.NSim Model.Interrupts
   Oracle.SimCheck Oracle.SimOracle
-  Proofs.SimP Proofs.FlattenP Proofs.EqvP Proofs.ParDevP Proofs.InlineP Proofs.InlineLoopP Proofs.InlineScopeP Proofs.InlineAllP Proofs.SimTimeP Proofs.InlineLatestP Proofs.ScheduleP Proofs.SimTraceP.
+  Proofs.SimP Proofs.FlattenP Proofs.EqvP Proofs.ParDevP Proofs.InlineP Proofs.InlineLoopP Proofs.InlineScopeP Proofs.InlineAllP Proofs.InterruptsP Proofs.SimTimeP Proofs.InlineLatestP Proofs.ScheduleP Proofs.SimTraceP.
 Open Scope Z_scope.
 
 Theorem C09_flat_devices : forall cfg fuel lv, flat_order fuel cfg lv = devices_below cfg fuel lv.
@@ -333,6 +333,41 @@ Example C09_any_depth_example :
   (let '(_, obN, _) := sim_run sib_cfg (table_dev sib_tab) 20 8 0 100000 in
    map fst obN = map fst (snd (fst (sim_run (inline_all 5 sib_cfg) (table_dev sib_tab) 20 8 0 100000)))).
 Proof. vm_compute. repeat split; reflexivity. Qed.
+
+(* (6) REFUTED for interrupts of devices INSIDE system simulations, in the model and in the code (DESIGN.md 7.3).
+   An interrupt of an inner device is queued by name in the nested scheduler and wakes the OUTERMOST system
+   simulation at the master, which keeps the earlier of that stamp and the wakeup the system already has
+   ([stim_at] = the bookkeeping of [raise_interrupt], Proofs/InterruptsP.v).  Two devices of one system that
+   raise interrupts before the master has served the first are therefore both updated at the FIRST stamp, while
+   in the flat wiring each has its own wakeup and is updated at its own stamp: the second device observes another
+   update time.  The witness below (two devices in one system, stamps 1000 and 1001) is replayed on the real
+   schedulers by the check (reason interrupts-of-one-system-share-the-earliest-stamp). *)
+Definition coal_cfg : config :=
+  [(1%positive, {| l_order := [(3%positive, KDev); (4%positive, KSys 2%positive)]; l_conns := [] |});
+   (2%positive, {| l_order := [(5%positive, KDev); (6%positive, KDev)]; l_conns := [] |})].
+Definition coal_tab : dev_table := [(3%positive, (1, 0, 0)); (5%positive, (2, 0, 0)); (6%positive, (3, 0, 0))].
+Definition coal_script : list xitem :=
+  [XStim 5%positive 2%positive [(1%positive, 4%positive)] 1000; XStim 6%positive 2%positive [(1%positive, 4%positive)] 1001; XTick; XTick].
+
+Lemma obs_rel_fst a b : obs_rel a b -> map fst a = map fst b.
+Proof. induction 1 as [|x y l l' [E _] _ IH]; [reflexivity|]. cbn [map]. rewrite E, IH. reflexivity. Qed.
+
+Theorem C09_inner_interrupts_refuted :
+  scope_all 3 8 [] coal_cfg = true /\
+  let obN := snd (xsim_from_start coal_cfg (table_dev coal_tab) 8 0 coal_script) in
+  let obF := snd (xsim_from_start (inline_all 3 coal_cfg) (table_dev coal_tab) 8 0 (map flat_item coal_script)) in
+  obs_of 6%positive obN = [(0, []); (1000, [])] /\ obs_of 6%positive obF = [(0, []); (1001, [])] /\ ~ obs_rel obN obF.
+Proof.
+  split; [vm_compute; reflexivity|]. cbv zeta. split; [vm_compute; reflexivity|]. split; [vm_compute; reflexivity|].
+  intros H. apply obs_rel_fst in H. vm_compute in H. discriminate H.
+Qed.
+
+(* ... while interrupts with EQUAL stamps are served together on both sides (the witness with both stamps 1000) *)
+Example C09_inner_interrupts_same_stamp :
+  let script := [XStim 5%positive 2%positive [(1%positive, 4%positive)] 1000; XStim 6%positive 2%positive [(1%positive, 4%positive)] 1000; XTick; XTick] in
+  map fst (snd (xsim_from_start coal_cfg (table_dev coal_tab) 8 0 script)) =
+  map fst (snd (xsim_from_start (inline_all 3 coal_cfg) (table_dev coal_tab) 8 0 (map flat_item script))).
+Proof. vm_compute. reflexivity. Qed.
 
 (* the premises hold somewhere and the conclusion is not empty: two devices around a system of two
    devices, callbacks on three of them; 20 master ticks produce more than 30 device updates, and the
